@@ -257,10 +257,13 @@ Definition sym_load (bs : list byte) : load_result :=
       match pkts with
       | [] => LOk (h_rate h) []
       | _ =>
-          match glue_all f (concat (map (pcm_decode f ch) pkts)) with
-          | Some frs => LOk (h_rate h) frs
-          | None => LErrChannels
-          end
+          (* load_frames_from_buffer looks at the channel count of every decoded buffer first *)
+          if (h_ch h =? 1) || (h_ch h =? 2) then
+            match glue_all f (concat (map (pcm_decode f ch) pkts)) with
+            | Some frs => LOk (h_rate h) frs
+            | None => LErr                          (* unreachable: frames have [ch] samples *)
+            end
+          else LErrChannels
       end
   end.
 
